@@ -153,3 +153,11 @@ pub assume_specification<T: std::cmp::Eq + std::hash::Hash, const N: usize>[<Has
 // machine-size fact: the entries of a hash set and of a vector live in one address space (each entry takes more than one byte)
 pub broadcast axiom fn ax_set_vec_len_bound<T>(a: HashSet<String>, v: Vec<T>)
     ensures #[trigger] a@.len() + #[trigger] v@.len() < usize::MAX;
+
+// Option::or / as_deref (std): one-line facts
+pub assume_specification<T> [std::option::Option::<T>::or] (a: std::option::Option<T>, b: std::option::Option<T>) -> (r: std::option::Option<T>)
+    where T: std::marker::Destruct,
+    ensures r == (if a is Some { a } else { b });
+pub assume_specification<T> [std::option::Option::<T>::as_deref] (a: &std::option::Option<T>) -> (r: std::option::Option<&<T as std::ops::Deref>::Target>)
+    where T: std::ops::Deref,
+    ensures r is Some <==> a is Some;
